@@ -582,3 +582,40 @@ Proof.
 Qed.
 
 End Sound.
+
+(* ================= the statements, for all schedules ================= *)
+(* A schedule = an execution `exec prog w c0 tr c`: the list tr of (goroutine, label) pairs fixes the interleaving
+   and every nondeterministic choice (which path a call takes, which child object). *)
+
+(* no data race: (a) no reachable configuration has two goroutines about to perform conflicting accesses;
+   (b) any two conflicting accesses in a trace are ordered by a Release/Acquire pair on the object's mutex *)
+Definition hb_ordered (tr : list (nat * label)) : Prop :=
+  forall i j t1 t2 l1 l2 o f, i < j ->
+    nth_error tr i = Some (t1, l1) -> nth_error tr j = Some (t2, l2) -> t1 <> t2 ->
+    is_access l1 o f -> is_access l2 o f -> (l1 = LWrite o f \/ l2 = LWrite o f) ->
+    exists k l md1 md2, i < k /\ k < l /\ l < j /\
+      nth_error tr k = Some (t1, LRel o md1) /\ nth_error tr l = Some (t2, LAcq o md2).
+
+Definition race_free (prog : program) (w : world) (c0 : config) : Prop :=
+  forall tr c, exec prog w c0 tr c -> ~ racy c /\ hb_ordered tr.
+
+(* no deadlock: in every reachable configuration some goroutine can step unless all have finished.
+   (Every method body is a finite path, so a goroutine that can always step eventually returns, PROVIDED the
+   recursion through parent/child objects ends — it does in a finite forest — and the scheduler is fair: both
+   are outside this statement.) *)
+Definition no_thread_blocked_forever (prog : program) (w : world) (c0 : config) : Prop :=
+  forall tr c, exec prog w c0 tr c -> all_done c \/ exists l c', step prog w c l c'.
+
+Theorem disc_ok_sound prog w c0 :
+  disc_ok prog = true -> wf_world w -> initial prog w c0 ->
+  race_free prog w c0 /\ no_thread_blocked_forever prog w c0.
+Proof.
+  intros Hok Hw Hi.
+  assert (Hg : forall tr c, exec prog w c0 tr c -> ginv prog w c).
+  { intros tr c He. eapply exec_preserves; eauto. apply initial_ginv; auto. }
+  split.
+  - intros tr c He. split.
+    + eapply ginv_not_racy; eauto.
+    + unfold hb_ordered. intros. eapply conflicting_accesses_ordered; eauto.
+  - intros tr c He. eapply ginv_progress; eauto.
+Qed.
